@@ -299,6 +299,7 @@ Theorem tie_operations_third_party_sros_rpc_Commit_request : L_operations_third_
    Builders.s_confirmed;
    Builders.s_confirm_timeout;
    Builders.s_persist;
+   Gating.s_k_confirmed;
    Builders.s_persist_id].
 Proof. tie. Qed.
 Print Assumptions tie_operations_third_party_sros_rpc_Commit_request.
